@@ -417,6 +417,9 @@ func core2(yield func(Case) bool) {
 	apis := []string{"string", "fragment", "load"}
 	i := 0
 	for _, rs := range rootSetups() {
+		if rs.only != "" {
+			continue // vals.Rec roots have no field for a list of maps
+		}
 		var d Data
 		var xsN, ysN string
 		if rs.kind == "map" {
